@@ -377,6 +377,8 @@ def snap_arg(x):
     if hasattr(x, "variables") and hasattr(x, "values") and hasattr(x, "cardinality"):
         return ("factor", [str(v) for v in x.variables], [int(c) for c in x.cardinality], np.asarray(x.values, dtype=float).round(12).tolist(),
                 {str(k): [str(s) for s in v] for k, v in x.state_names.items()})
+    if isinstance(x, np.ndarray):
+        return ("array", list(x.shape), np.asarray(x, dtype=float).round(12).tolist())
     if isinstance(x, dict):
         return ("dict", [(repr(k), snap_arg(v)) for k, v in x.items()])
     if isinstance(x, (set, frozenset)):
@@ -513,6 +515,49 @@ def _purity_data(st, g):
             ("PC.estimate", lambda: PC(df).estimate(ci_test="chi_square", show_progress=False)),
             ("DAG.fit", lambda: DAG([("A", "B"), ("B", "C")]).fit(df)),
         ]
+    # the same for mutable option arguments (state_names, pseudo counts, edge lists, white / black lists, node lists)
+    def arg_apis(df, m, start):
+        sn = {"A": [0, 1], "B": [0, 1], "C": [0, 1]}
+        return [
+            ("MLE(state_names)", lambda **k: MaximumLikelihoodEstimator(m, df, **k).get_parameters(n_jobs=1), {"state_names": sn}),
+            ("BayesianEstimator.estimate_cpd(dirichlet array)", lambda **k: BayesianEstimator(m, df).estimate_cpd("C", prior_type="dirichlet", **k), {"pseudo_counts": np.ones((2, 2))}),
+            ("BayesianEstimator.get_parameters(dirichlet dict)", lambda **k: BayesianEstimator(m, df).get_parameters(prior_type="dirichlet", n_jobs=1, **k),
+             {"pseudo_counts": {"A": np.ones((2, 1)), "B": np.ones((2, 2)), "C": np.ones((2, 2))}}),
+            ("BayesianEstimator.get_parameters(ess dict)", lambda **k: BayesianEstimator(m, df).get_parameters(prior_type="BDeu", n_jobs=1, **k), {"equivalent_sample_size": {"A": 5, "B": 2, "C": 7}}),
+            ("model.fit(state_names)", lambda **k: m.copy().fit(df, **k), {"state_names": sn}),
+            ("HillClimbSearch.estimate(lists)", lambda **k: HillClimbSearch(df).estimate(scoring_method="k2", show_progress=False, **k),
+             {"fixed_edges": {("A", "C")}, "black_list": [("B", "A")], "white_list": [("A", "C"), ("A", "B"), ("B", "C"), ("C", "B")]}),
+            ("HillClimbSearch.estimate(fixed list)", lambda **k: HillClimbSearch(df).estimate(scoring_method="bic", show_progress=False, **k), {"fixed_edges": [("A", "C")], "start_dag": start}),
+            ("BDeuScore.local_score(parents)", lambda **k: BDeuScore(df).local_score("C", **k), {"parents": ["B", "A"]}),
+            ("K2Score(state_names)", lambda **k: K2Score(df, **k).score(m), {"state_names": sn}),
+            ("PC.estimate", lambda **k: PC(df).estimate(ci_test="chi_square", show_progress=False, n_jobs=1, **k), {"significance_level": 0.05}),
+            ("DAG.fit(state_names)", lambda **k: DAG([("A", "B"), ("B", "C")]).fit(df, **k), {"state_names": sn}),
+        ]
+    df, m, start = fresh()
+    for name, _, _ in arg_apis(df, m, start):
+        df, m, start = fresh()
+        _, fn, kwargs = [a for a in arg_apis(df, m, start) if a[0] == name][0]
+        before = {k: (snap_arg(v) if k != "start_dag" else (sorted(v.nodes()), sorted(v.edges()))) for k, v in kwargs.items()}
+        s_df, s_m = snap_df(df), snap_model(m)
+        case = {"g": g, "site": "purity-data", "api": "args:" + name}
+        st.evals += 1
+        st.transitions += 1
+        st.nt("args:" + name)
+        try:
+            fn(**kwargs)
+            err = None
+        except Exception as ex:
+            err = repr(ex)[:200]
+        st.compared += 1
+        changed = [k for k, v in kwargs.items() if (snap_arg(v) if k != "start_dag" else (sorted(v.nodes()), sorted(v.edges()))) != before[k]]
+        if snap_df(df) != s_df:
+            changed.append("data")
+        if snap_model(m) != s_m:
+            changed.append("model")
+        if changed:
+            st.violation("purity-data", "argument-changed", case, {"changed": changed, "error": err}, None)
+        if err:
+            st.bump("api-raised:args:" + name)
     df, m, start = fresh()
     st.states += 1
     for name, _ in apis(df, m, start):
